@@ -859,6 +859,11 @@ LOG_ARG_SAFE_LAST = {
     'fmt', 'borrow', 'to_str', 'to_string_lossy', 'as_bytes', 'into', 'from', 'default', 'iter', 'keys', 'values', 'get',
     'saturating_sub', 'saturating_add', 'checked_sub', 'checked_add', 'wrapping_sub', 'wrapping_add', 'abs', 'min', 'max',
     'saturating_duration_since', 'checked_duration_since', 'panicking', 'as_ptr', 'is_null', 'eq', 'ne', 'cmp', 'partial_cmp',
+    'unwrap_or', 'unwrap_or_default', 'unwrap_or_else', 'map', 'map_or', 'map_or_else', 'ok', 'err', 'and_then', 'or_else', 'filter',
+    'as_deref', 'copied', 'cloned', 'first', 'last', 'to_vec', 'collect', 'join', 'count', 'format', 'to_uppercase', 'to_lowercase',
+    'trim', 'contains', 'starts_with', 'ends_with', 'lt', 'le', 'gt', 'ge', 'not', 'file_name', 'extension', 'parent', 'exists',
+    'type_name', 'type_name_of_val', 'size_of', 'size_of_val', 'load', 'as_secs_f64', 'duration_since_epoch', 'description',
+    'source', 'os_error', 'last_os_error', 'to_path_buf', 'into_iter', 'enumerate', 'zip', 'rev', 'take', 'skip', 'chars', 'bytes',
 }
 
 
